@@ -1,5 +1,6 @@
 """C03 — poll discipline: who may poll, skip tests before each poll, finishing marks after a
 child's final result, no poll after the deciding child."""
+from ..facts import base
 from .. import scan, families
 from ..families import short
 from ..sites import FUTURE, STREAM, is_agg
@@ -8,8 +9,8 @@ from . import common, prims
 
 PROPERTY = "C03"
 LEVEL = "other"
-CONFIGS_QUICK = ["std", "alloc"]
-CONFIGS_THOROUGH = ["std", "alloc", "core"]
+CONFIGS_QUICK = ["std", "alloc", "std-rel"]
+CONFIGS_THOROUGH = ["std", "alloc", "core", "std-rel", "alloc-rel", "core-rel"]
 EXPLANATION = (
     "Typestate / who-may-call analysis on MIR: (WHO) Future::poll / Stream::poll_next calls occur only inside poll bodies "
     "(impl Future/Stream, poll_next_inner, compiler-generated await loops), never in constructors, group mutators, destructors "
@@ -67,12 +68,12 @@ def run(ctx):
         with ctx.renamed({"C19.*": "C03.WAIT"}):
             for kind, adt, ext_trait, tr, meth in c19.TARGETS:
                 c19.check_one(ctx, M, kind, adt, ext_trait, tr, meth)
-        if cfg != "core":
+        if base(cfg) != "core":
             rule_src(ctx, M)
         prims.check_pollstate(ctx, M, "C03.PRED")
-        ctx.floor("C03.GUARD", cfg, 5 * 78 + (5 if cfg == "core" else 11))
-        ctx.floor("C03.MARK", cfg, 7 * 78 + (7 if cfg == "core" else 15))
-        ctx.floor("C03.STOP", cfg, 5 * 78 + (5 if cfg == "core" else 11))
+        ctx.floor("C03.GUARD", cfg, 5 * 78 + (5 if base(cfg) == "core" else 11))
+        ctx.floor("C03.MARK", cfg, 7 * 78 + (7 if base(cfg) == "core" else 15))
+        ctx.floor("C03.STOP", cfg, 5 * 78 + (5 if base(cfg) == "core" else 11))
     return {}
 
 
